@@ -5,5 +5,6 @@ CONSTANTS
   Interval = 2
   Floor = 2
   MaxOps = 3
+  FixEnsure = TRUE
 INVARIANT Inv
 CHECK_DEADLOCK FALSE
